@@ -13,6 +13,11 @@ import (
 // deadlocks, answers every isready, never answers a go with the move of a superseded
 // search, and shuts down cleanly.
 
+// a small position with a mate in one (so that even an unlimited search ends by itself
+// at depth 2) keeps every search short; the two positions
+// used by the superseded-search script have disjoint move sets
+const c16Pos = "position fen 6k1/5ppp/8/8/8/8/8/R5K1 w - - 0 1"
+
 type uciRun struct {
 	e    *engine.Engine
 	in   chan string
@@ -58,42 +63,54 @@ func (r *uciRun) waitBest() string {
 // a new position and go arrive while the first search is still running
 func Harness_C16_Superseded() {
 	r := startDriver()
-	r.in <- "position startpos"
+	r.in <- c16Pos
 	r.in <- "go depth 2"
 	r.in <- "isready"
-	r.in <- "position startpos moves e2e4"
+	r.in <- c16Pos + " moves g1g2"
 	r.in <- "go depth 1"
 	verifReach("superseded")
-	// the answer to the last go: wait until a bestmove legal in the new position arrives,
-	// then quit; any bestmove that is not legal there was computed for the superseded search
 	r.in <- "isready"
-	stale := 0
-	last := ""
-	for {
-		b := r.waitBest()
-		if b == "" {
+	// read until the second readyok: by then the driver has processed the second go and the
+	// engine's position is the new one for good
+	for r.ready < 2 {
+		l, ok := <-r.out
+		if !ok {
 			break
 		}
-		last = b
-		if legalText(r.e, b) {
-			break
+		if l == "readyok" {
+			r.ready++
 		}
-		stale++
+		if strings.HasPrefix(l, "bestmove ") {
+			r.best = append(r.best, strings.TrimPrefix(l, "bestmove "))
+		}
+	}
+	// the answer to the last go is either the last bestmove received so far, or still to come
+	answered := len(r.best) > 0 && legalText(r.e, r.best[len(r.best)-1])
+	if !answered {
+		b := r.waitBest() // blocks until it arrives (a swallowed answer shows as a deadlock)
+		answered = b != "" && legalText(r.e, b)
 	}
 	r.in <- "quit"
 	r.drain()
-	verifAssert(last != "" && legalText(r.e, last), "the last go is answered with a move of the position it was asked for")
+	verifAssert(answered, "the last go is answered with a move of the position it was asked for")
 	verifAssert(r.ready == 2, "every isready is answered with readyok")
-	// a move of the first search may be reported only before the new go is processed; it can
-	// never be the only answer
-	verifAssert(stale <= 1, "at most the superseded search's own answer precedes the answer to the new go")
+	n := 0
+	for _, b := range r.best {
+		if legalText(r.e, b) {
+			n++
+		}
+	}
+	verifAssert(n == 1, "the last go is answered exactly once")
 	verifAssert(len(r.best) <= 2, "no bestmove beyond one per go")
+	if len(r.best) == 2 {
+		verifAssert(!legalText(r.e, r.best[0]), "a bestmove of the superseded search can only precede the answer to the new go")
+	}
 }
 
 // ucinewgame, unknown words and isready during an infinite search, then quit
 func Harness_C16_Noise() {
 	r := startDriver()
-	r.in <- "position startpos"
+	r.in <- c16Pos
 	r.in <- "go infinite"
 	r.in <- "isready"
 	r.in <- "xyzzy 1 2 3"
@@ -109,7 +126,7 @@ func Harness_C16_Noise() {
 // end of input while a search is running
 func Harness_C16_EOF() {
 	r := startDriver()
-	r.in <- "position startpos"
+	r.in <- c16Pos
 	r.in <- "go depth 2"
 	r.in <- "isready"
 	close(r.in)
@@ -122,7 +139,7 @@ func Harness_C16_EOF() {
 // malformed go lines: the driver ends its session without crashing
 func Harness_C16_Malformed() {
 	r := startDriver()
-	r.in <- "position startpos"
+	r.in <- c16Pos
 	r.in <- "isready"
 	which := verifSplit(uint64(nondetU8("which")), 0, 2)
 	switch which {
